@@ -33,6 +33,8 @@ MAINS = {
     # the firmware idiom of a critical section: master enable cleared and set again by memory-addressed writes, so that
     # requests keep arriving exactly at the boundaries where bit 7 changes
     "toggle": bytes([0x32, 0x71, 0xFB, 0x7F, 0x00, 0x32, 0x79, 0xFB, 0x80, 0x00, 0x13, 0x0C]),
+    # software interrupts from the main loop: the same handler is entered by IR and by hardware delivery
+    "swi": bytes([0x00, 0xFE, 0x00, 0x00, 0x13, 0x06]),
 }
 BODIES = {
     "empty": b"",
@@ -44,6 +46,8 @@ BODIES = {
     # the handler acknowledges everything with a plain store of 0 and then software raises ANOTHER request
     "zero_then_raise": bytes([0x32, 0xCC, 0xFC, 0x00, 0x32, 0x79, 0xFC, 0x02]),
     "zero_then_raise_key": bytes([0x32, 0xCC, 0xFC, 0x00, 0x32, 0x79, 0xFC, 0x08]),
+    # the FIRST time the handler runs it executes RESET (a counter in internal RAM decides); later runs return normally
+    "reset_once": bytes([0x32, 0x80, 0x50, 0x6C, 0x00, 0x32, 0xA0, 0x50, 0x60, 0x01, 0x1A, 0x01, 0xFF]),
 }
 IMR_VALUES = [0x00, 0x01, 0x04, 0x0F, 0x80, 0x81, 0x84, 0x8F, 0xFF]
 KEYS = ["KEY_Q", "KEY_A", "KEY_F1"]
